@@ -40,7 +40,11 @@ PqBubbleLoop(s, pos, idx, f) ==
   IF PrioAt(s, par) < At(s.pri, idx)
   THEN LET pi == At(s.heap, par) IN
        IF ~In(s.heap, pos) \/ ~In(s.qp, pi) THEN UB(s, f1)
-       ELSE PqBubbleLoop([s EXCEPT !.heap = Put(@, pos, pi), !.qp = Put(@, pi, pos)], par, idx, f1)
+       ELSE IF ~SwapBubble
+            THEN PqBubbleLoop([s EXCEPT !.heap = Put(@, pos, pi), !.qp = Put(@, pi, pos)], par, idx, f1)   \* moving hole
+            ELSE IF ~In(s.qp, idx) THEN UB([s EXCEPT !.heap = Put(@, pos, pi), !.qp = Put(@, pi, pos)], f1)
+            ELSE PqBubbleLoop([s EXCEPT !.heap = Put(Put(@, pos, pi), par, idx),
+                                        !.qp = Put(Put(@, pi, pos), idx, par)], par, idx, f1)                 \* full swap
   ELSE IF ~In(s.heap, pos) \/ ~In(s.qp, idx) THEN UB(s, f1)
        ELSE Ok([s EXCEPT !.heap = Put(@, pos, idx), !.qp = Put(@, idx, pos)], f1, <<pos>>)
 PqBubbleUp(s, pos, idx, f) ==
@@ -71,8 +75,10 @@ PqPush(s, k, p, f) ==
   ELSE LET i  == s.size
            s1 == [s EXCEPT !.keys = Append(@, k), !.pri = Append(@, p),
                            !.qp = Append(@, i), !.heap = Append(@, i)] IN
-       Then(PqBubbleUp(s1, i, i, f1),
-            LAMBDA x : Ok([x.st EXCEPT !.size = @ + 1], x.fuel, <<>>))   \* size bumped last
+       IF SwapBubble
+       THEN SetRet(PqBubbleUp([s1 EXCEPT !.size = @ + 1], i, i, f1), <<>>)   \* size bumped before the sift
+       ELSE Then(PqBubbleUp(s1, i, i, f1),
+                 LAMBDA x : Ok([x.st EXCEPT !.size = @ + 1], x.fuel, <<>>))  \* 2.3.1: size bumped last
 
 \* push_increase / push_decrease: get_priority (lookup), one comparison if present, then push.
 \* ret = <<>> | <<old>> | <<p, 0>> when nothing was done (the offered priority comes back)
@@ -147,7 +153,7 @@ PqDeserialize(pairs, f) == Then(StoreDeserialize(pairs, f), LAMBDA x : PqHeapBui
 \* Extend: `rebuild` is the strategy chosen from the size hint (see BetterToRebuild)
 RECURSIVE PqPushAll(_,_,_)
 PqPushAll(s, pairs, f) ==
-  IF pairs = <<>> THEN Ok(s, f, <<>>) ELSE
+  IF pairs = <<>> THEN (IF f.cb = 0 THEN Panic(s, f) ELSE Ok(s, TickCb(f), <<>>)) ELSE
   IF f.cb = 0 THEN Panic(s, f) ELSE
   Then(PqPush(s, pairs[1][1], pairs[1][2], TickCb(f)), LAMBDA x : PqPushAll(x.st, Tail(pairs), x.fuel))
 PqExtend(s, pairs, rebuild, f) ==
